@@ -125,6 +125,129 @@ def group_case(out: Outcome, rng, classes: list[str], share_cfg: bool, with_cb, 
     out.case({"classes": classes, "shared_config": share_cfg, "history_callback": with_cb, "lens": lens, "h": hash(str(streams)) & 0xFFFFFF})
 
 
+def heap_scenarios(out: Outcome, rng, n_random: int) -> None:
+    """object-graph correspondence: the heap model (`FrourosModel/Heap.lean`, the model the isolation / purity / transparency theorems of
+    `Props/C16b.lean` are about) and the real objects are driven through the same scenario of constructor / update / reset / fit / compare
+    calls; afterwards WHICH object every field references (Python `is`) must agree: configuration stored as given, callbacks list stored as
+    given (or a new list), BOCD's model copied out of the configuration by the constructor and again by reset(), back-references of
+    callbacks, the fitted reference stored as given, number of entries every history callback recorded"""
+    import frouros.detectors.concept_drift as cd
+    from frouros.callbacks.batch import ResetStatisticalTest
+    from frouros.detectors.concept_drift.streaming.change_detection.bocd import GaussianUnknownMean
+    from frouros.detectors.data_drift.batch import KSTest
+    from common import run_driver
+
+    fixed = [
+        "cfg:c:m det:a:c:none det:b:c:none upd:a upd:b",
+        "cfg:c:m det:a:c:none det:b:c:none upd:a rst:a upd:a rst:b",
+        "cfg:c:m cb:h1 lst:L:h1 det:a:c:l=L det:b:c:none upd:a upd:a rst:a upd:b",
+        "cfg:c:- cb:h1 det:a:c:s=h1 upd:a upd:a",
+        "cfg:c:- cb:h1 cb:h2 lst:L:h1,h2 det:a:c:l=L upd:a rst:a upd:a",
+        "cfg:c:- cb:h1 det:a:c:s=h1 det:b:c:s=h1 upd:a",          # one callback object handed to two constructors: the last one owns it
+        "cfg:c:- cb:h1 lst:L:h1 det:a:c:l=L det:b:c:l=L upd:b upd:a",
+        "cfg:c:- cfg:e:- det:a:c:none det:b:e:none upd:a",
+        "arr:X arr:Y bdet:k:none fit:k:X cmp:k:Y cmp:k:Y",
+        "arr:X arr:Y rcb:r bdet:k:s=r fit:k:X cmp:k:Y",
+        "arr:X arr:Y rcb:r lst:L:r bdet:k:l=L fit:k:X brst:k fit:k:Y cmp:k:X",
+        "arr:X cb:h1 bdet:k:s=h1",                                  # a streaming callback on a batch detector is rejected
+        "cfg:c:- rcb:r det:a:c:s=r",                                # and the other way round
+    ]
+
+    def random_scenario():
+        words, cbs, lists, dets_, bdets, arrs = [], [], [], [], [], []
+        model = rng.random() < 0.5
+        words.append("cfg:K:" + ("m" if model else "-"))
+        for i in range(rng.randint(0, 3)):
+            cbs.append(f"h{i}")
+            words.append(f"cb:h{i}")
+        if cbs and rng.random() < 0.6:
+            lists.append("L")
+            words.append("lst:L:" + ",".join(rng.sample(cbs, rng.randint(1, len(cbs)))))
+        for i in range(rng.randint(1, 3)):
+            arg = rng.choice(["none"] + [f"s={c}" for c in cbs] + [f"l={l}" for l in lists])
+            dets_.append("abc"[i])
+            words.append(f"det:{'abc'[i]}:K:{arg}")
+        for _ in range(rng.randint(1, 7)):
+            words.append(rng.choice(["upd:", "upd:", "rst:"]) + rng.choice(dets_))
+        return " ".join(words)
+
+    scenarios = fixed + [random_scenario() for _ in range(n_random)]
+    lines, expect = [], []
+    for sc in scenarios:
+        env, order, bocd = {}, [], False
+        raised = False
+        try:
+            for w in sc.split(" "):
+                t = w.split(":")
+                if t[0] == "cfg":
+                    if t[2] == "m":
+                        env[t[1]] = cd.BOCDConfig(model=GaussianUnknownMean(prior_mean=0.0, prior_var=1.0, data_var=1.0))
+                        env[t[1] + ".model"] = env[t[1]].model
+                    else:
+                        env[t[1]] = cd.DDMConfig()
+                elif t[0] == "cb":
+                    env[t[1]] = HistoryConceptDrift(name=t[1])
+                elif t[0] == "rcb":
+                    env[t[1]] = ResetStatisticalTest(alpha=1.0, name=t[1])
+                elif t[0] == "lst":
+                    env[t[1]] = [env[x] for x in t[2].split(",") if x]
+                elif t[0] == "arr":
+                    env[t[1]] = np.array([rng.gauss(0, 1) for _ in range(6)])
+                elif t[0] in ("det", "bdet"):
+                    a = t[3] if t[0] == "det" else t[2]
+                    arg = None if a == "none" else env[a[2:]]
+                    if t[0] == "det":
+                        cfg = env[t[2]]
+                        env[t[1]] = (cd.BOCD if isinstance(cfg, cd.BOCDConfig) else cd.DDM)(config=cfg, callbacks=arg)
+                    else:
+                        env[t[1]] = KSTest(callbacks=arg)
+                    order.append(t[1])
+                elif t[0] == "upd":
+                    env[t[1]].update(value=1)
+                elif t[0] == "rst" or t[0] == "brst":
+                    env[t[1]].reset()
+                elif t[0] == "fit":
+                    env[t[1]].fit(X=env[t[2]])
+                elif t[0] == "cmp":
+                    env[t[1]].compare(X=env[t[2]])
+        except Exception:  # noqa: BLE001
+            raised = True
+
+        def name_of(o):
+            return next((k for k, v in env.items() if v is o), "own")
+
+        if raised:
+            facts = "raised"
+        else:
+            parts = []
+            for n in order:
+                d = env[n]
+                streaming = hasattr(d, "config")
+                model = "-"
+                if hasattr(d, "_model"):
+                    model = name_of(d._model)
+                    if model == "own":
+                        model = next(("shared:" + m for m in order if m != n and getattr(env[m], "_model", None) is d._model), "own")
+                av = getattr(d, "_additional_vars", None)
+                vars_ = next(("shared:" + m for m in order if m != n and av is not None and getattr(env[m], "_additional_vars", None) is av), "own")
+                xref = "-" if getattr(d, "X_ref", None) is None else name_of(d.X_ref)
+                parts.append(f"{n}[cfg={name_of(d.config) if streaming else '-'} cbs={name_of(d.callbacks)} items={','.join(name_of(c) for c in d.callbacks)} "
+                             f"model={model} vars={vars_} xref={xref}]")
+            for k, v in env.items():
+                if isinstance(v, (HistoryConceptDrift, ResetStatisticalTest)):
+                    cnt = len(v.history["value"]) if isinstance(v, HistoryConceptDrift) else 0
+                    parts.append(f"{k}[det={name_of(v.detector) if v.detector is not None else '-'} n={cnt}]")
+            facts = " ".join(parts)
+        lines.append("heap " + sc)
+        expect.append((facts, sc))
+        out.case({"heap_scenario": sc})
+    for got, (want, sc) in zip(run_driver(lines), expect):
+        if got == want:
+            out.traces_validated += 1
+        else:
+            out.mismatch(f"object graph after the scenario '{sc}': the heap model says '{got}', the implementation '{want}'", {"scenario": sc, "model": got, "impl": want})
+
+
 def run(out: Outcome) -> None:
     rng = rng_for(out.seed, "C16")
     thorough = out.tier == "thorough"
@@ -153,6 +276,7 @@ def run(out: Outcome) -> None:
         # configuration - BOCD's model object - must have been copied by the constructor AND by reset())
         group_case(out, rng, [c, c], share_cfg=True, with_cb=False, short=False, runners=runners, limit=2, pre_reset=False)
         group_case(out, rng, [c, c], share_cfg=True, with_cb=rng.choice([False, "single", "two"]), short=False, runners=runners, limit=2, pre_reset=True)
+    heap_scenarios(out, rng, 60 if thorough else 20)
     before = len(out.mismatches)
     corr.compare_batch(out, runners, rtol=1e-8)
     # a model/implementation disagreement means the in-process run is not the 'alone' behaviour the model describes: look for the failing
